@@ -60,3 +60,24 @@ Theorem C02_unknown_messages_do_nothing : forall cfg user send_ok st a o,
   step cfg user send_ok st a (MOther o) = SOk st [].
 Proof. exact step_other. Qed.
 Print Assumptions C02_unknown_messages_do_nothing.
+
+(* translator obligations (lib/gen_statespace.py reads the structs, statics and mutable bindings of the
+   modelled code on every run): the code has the state the model represents and no other *)
+From Portus Require Import StateTie.
+From PortusGen Require Import StateSpace.
+From Coq Require Import String.
+Open Scope string_scope.
+Theorem C02_source_run_inner_state : impl_mut_run_inner = model_mut_run_inner.
+Proof. exact mut_run_inner_tie. Qed.
+Print Assumptions C02_source_run_inner_state.
+Theorem C02_source_shared_state_run : nth 1 impl_shared_state_tokens "" = "src/run.rs: AtomicBool HashMap unsafe".
+Proof. exact shared_state_run. Qed.
+Print Assumptions C02_source_shared_state_run.
+
+(* translator obligation shared with C09: run_inner keeps its flows in a map keyed by the datapath
+   address whose values are maps keyed by the flow id, and every access goes through the receive
+   address itself (no digest, no side table, no bulk removal) *)
+From PortusGen Require Import FlowKey.
+Theorem C02_source_keys_flows_by_address_then_flow_id : flow_map_shape = KeyAddrThenSid.
+Proof. reflexivity. Qed.
+Print Assumptions C02_source_keys_flows_by_address_then_flow_id.
